@@ -990,11 +990,27 @@ def c03_16(ctx):
 
 def c03_15(ctx):
     """MEMO: products / parsed points are not remembered under a key that identifies the point only by its x coordinate"""
-    from sa.memo import memo_obligation
-    return memo_obligation(ctx, ["pecc"], "the product computed for P would be returned for -P")
+    from sa.memo import cache_obligation
+    return cache_obligation(ctx, ["pecc"], "the product computed for P would be returned for -P")
+
+
+def c03_17(ctx):
+    """SET-ORDER: no ordered result (list, serialisation, yielded sequence) of the modules this property is anchored in takes its
+    order from the iteration order of a set"""
+    from sa.setorder import setorder_obligation
+    return setorder_obligation(ctx, ["pecc"], "the same inputs give different output from run to run")
+
+
+def c03_18(ctx):
+    """SHARED necessary conditions over the modules this property is anchored in: FALSY-DEFAULT, MUTABLE-DEFAULT, IDENTITY, ALIAS,
+    CTOR-FORWARD (sa/shared.py)"""
+    from sa.shared import shared_obligations
+    return shared_obligations(ctx, ["pecc"], "the result would depend on something other than the arguments and the object's current state")
 
 
 OBLIGATIONS = [
+    ("C03.18", "SHARED", c03_18),
+    ("C03.17", "SET-ORDER", c03_17),
     ("C03.1", "RANGE accept-set", c03_1),
     ("C03.2", "GUARD", c03_2),
     ("C03.3", "GUARD zero-divisor", c03_3),
